@@ -136,11 +136,11 @@ class Wrapf(util.WrapperMixin):
         for ns in node.namespaces:
             if not ns.wrap.fortran:
                 continue
+            # Skip file component in scope_file for splicer name.
+            self._update_splicer_top("::".join(ns.scope_file[1:]))
             if ns.options.F_flatten_namespace:
                 self.wrap_namespace(ns, fileinfo)
             else:
-                # Skip file component in scope_file for splicer name.
-                self._update_splicer_top("::".join(ns.scope_file[1:]))
                 nsinfo = ModuleInfo(ns)
                 self.wrap_namespace(ns, nsinfo)
         if top:
